@@ -3,6 +3,8 @@
 //	hx-c11 hist --n N --len L   lockstep histories (all methods, diffs, orders, codec) -> cases.v + Go reference oracle
 //	hx-c11 conc --runs R        directed lock schedules, free-running method pairs under a watchdog,
 //	                            linearizability of Add/Delete/Has, atomicity of Apply/Compute/Replace (Go oracles only)
+//	hx-c11 codec --n N          SerializableOrderedMap[K,V] / Set[K] codec with key / value types whose serix encoding can
+//	                            fail (codec.go): Encode error paths, Decode of truncated / malformed inputs -> codec.v + Go oracle
 package main
 
 import (
@@ -987,13 +989,15 @@ func hist(args []string) {
 
 func main() {
 	if len(os.Args) < 2 {
-		vx.Die("usage: hx-c11 hist|conc [flags] --seed S --out cases.v --stats stats.json")
+		vx.Die("usage: hx-c11 hist|conc|codec [flags] --seed S --out cases.v --stats stats.json")
 	}
 	switch os.Args[1] {
 	case "hist":
 		hist(os.Args[2:])
 	case "conc":
 		conc(os.Args[2:])
+	case "codec":
+		codecCmd(os.Args[2:])
 	default:
 		vx.Die("unknown subcommand %s", os.Args[1])
 	}
